@@ -18,7 +18,11 @@ if ! git -C $wt apply $src/$L.diff; then echo "patch does not apply"; git -C /re
 ( cd $wt && go build ./... > /tmp/confirm-$ID-$k.build 2>&1 ); r_build=$?
 ( cd $wt && go test $TAGS -vet=off -count=1 -run "$runpat" ./$pkgdir/ > /tmp/confirm-$ID-$k.with 2>&1 ); r_with=$?
 rm $wt/$pkgdir/$(basename $demo)
-( cd $wt && go test -vet=off -count=1 ./... > /tmp/confirm-$ID-$k.suite 2>&1 ); r_suite=$?
+# the integration tests bind fixed ports (2500, 9000): one suite at a time
+( cd $wt && flock /tmp/confirm-suite.lock go test -vet=off -count=1 ./... > /tmp/confirm-$ID-$k.suite 2>&1 ); r_suite=$?
+if [ $r_suite -ne 0 ] && grep -q "address already in use" /tmp/confirm-$ID-$k.suite; then
+  sleep 5; ( cd $wt && flock /tmp/confirm-suite.lock go test -vet=off -count=1 ./... > /tmp/confirm-$ID-$k.suite 2>&1 ); r_suite=$?
+fi
 git -C /repo worktree remove --force $wt
 echo "demo without change rc=$r_without (want 0); build rc=$r_build (want 0); demo with change rc=$r_with (want !=0); suite with change rc=$r_suite (want 0)"
 if [ $r_without -ne 0 ] || [ $r_build -ne 0 ] || [ $r_with -eq 0 ] || [ $r_suite -ne 0 ]; then echo "NOT CONFIRMED"; tail -5 /tmp/confirm-$ID-$k.suite; exit 1; fi
